@@ -165,9 +165,14 @@ func VH_slice_EditScriptBig() {
 		return
 	}
 	// x: one of the last three lhs values' neighbourhood (even = hit)
-	x := vRange("x", 2*n-6, 2*n-1)
 	// y: around rhs[1] and rhs[2] (odd = hit), left of x's partner in lhs
-	y := vRange("y", 2, 6)
+	var x, y int
+	if vCase("narrow") == 1 {
+		// the very large sizes: two outcomes for x, y a fixed hit
+		x, y = vRange("x", 2*n-2, 2*n-1), 3
+	} else {
+		x, y = vRange("x", 2*n-6, 2*n-1), vRange("y", 2, 6)
+	}
 	xp, yp := m/2, 1
 	rhs[xp] = x
 	lhs[yp] = y
